@@ -37,6 +37,7 @@ def run(ctx):
     ctx.do(rule_api_domain)
     ctx.do(rule_container_dispatch)
     ctx.do(rule_absent_values)
+    ctx.do(rule_presence_by_membership)
     from .regexlang import rule_regex_languages
     ctx.do(rule_regex_languages, "C03.regex-language", ["complete"])
     run.floor("C03.regex-language", 5)
@@ -375,6 +376,44 @@ def rule_container_dispatch(ctx):
                   expected="valid_refs = {k: v['type'] for k, v in dictified.items()} before the loop, not modified in it",
                   found=[short(v) for _, v in defs if isinstance(v, ast.AST)] + [short(m) for m in mut])
     run.floor(R, 4)
+
+
+def rule_presence_by_membership(ctx):
+    """The co-constraint helpers decide whether a property is PRESENT.  Presence is key membership (`p in self`,
+    `self.keys()`, properties_populated()); the truthiness of the value (`if self.get(p)`) treats legal falsy values --
+    0, False, '' -- as absent: an object whose only given properties are `pid: 0` or `is_self_signed: false` is refused."""
+    from .C08 import _bool_uses
+    run = ctx.run
+    prog = ctx.prog
+    R = "C03.presence-by-membership"
+    base = prog.cls("stix2.base::_STIXBase")
+    for name in ("_check_mutually_exclusive_properties", "_check_at_least_one_property", "_check_properties_dependency",
+                 "properties_populated"):
+        fi = base.methods.get(name)
+        if fi is None:
+            raise AnalysisError("anchor missing: _STIXBase.%s" % name)
+        bad = []
+        for x in body_walk(fi.node):
+            tests = []
+            if isinstance(x, (ast.If, ast.While, ast.IfExp)):
+                tests.append(x.test)
+            if isinstance(x, ast.comprehension):
+                tests += x.ifs
+            if isinstance(x, ast.BoolOp):
+                tests += x.values
+            if isinstance(x, ast.UnaryOp) and isinstance(x.op, ast.Not):
+                tests.append(x.operand)
+            for t in tests:
+                # a bare value read used as a condition:  self.get(p) / self[p] / getattr(self, p)
+                if (isinstance(t, ast.Call) and isinstance(t.func, ast.Attribute) and t.func.attr == "get" and norm(t.func.value) == "self") \
+                        or (isinstance(t, ast.Subscript) and norm(t.value) == "self") \
+                        or (isinstance(t, ast.Call) and call_simple_name(t) == "getattr" and t.args and norm(t.args[0]) == "self"):
+                    bad.append(t)
+        run.check(not bad, R, key(fi.module.relpath, fi.qualname, "no-truthiness-of-values"),
+                  "a co-constraint helper decides presence by the truthiness of the value: legal falsy values (0, False, '') count "
+                  "as absent, so a valid object whose given properties all hold such values is refused", file=fi.module.relpath,
+                  line=bad[0].lineno if bad else fi.node.lineno, function=fi.qualname, expected="`p in self` / self.keys()",
+                  found=[short(b_) for b_ in bad])
 
 
 def rule_absent_values(ctx):
